@@ -2706,11 +2706,42 @@ async fn markers(rig: &mut Rig, pair: &str, raced: &[Vec<Vec<u8>>; 2]) -> Verdic
         if let Err(e) = tx_ep.send_app(&payload).await {
             return Verdict::Inconclusive(format!("marker send {} failed: {e}", dir.name()));
         }
-        let t = Instant::now();
         let mut got: Vec<Vec<u8>> = vec![];
+        // no wall-clock verdict: when nothing comes out for 4 s, fresh probes follow the marker on
+        // the same FIFO path.  A probe that comes out before the marker proves the marker is lost
+        // for good; silence through all probes counts only if the wire handed every datagram to the
+        // peer and a 10 ms canary on this runtime never lagged (the pump was not starved).
+        let mut probes: Vec<Vec<u8>> = vec![];
+        let canary_max = Arc::new(std::sync::atomic::AtomicU64::new(0));
+        let canary = {
+            let m = canary_max.clone();
+            tokio::spawn(async move {
+                let mut last = Instant::now();
+                loop {
+                    tokio::time::sleep(Duration::from_millis(10)).await;
+                    let lag = (last.elapsed().as_millis() as u64).saturating_sub(10);
+                    m.fetch_max(lag, std::sync::atomic::Ordering::Relaxed);
+                    last = Instant::now();
+                }
+            })
+        };
+        struct AbortGuard(tokio::task::JoinHandle<()>);
+        impl Drop for AbortGuard {
+            fn drop(&mut self) {
+                self.0.abort();
+            }
+        }
+        let _canary_guard = AbortGuard(canary);
         loop {
             match rx_ep.recv_app(Duration::from_secs(4)).await {
                 Some(p) if p == payload => break,
+                Some(p) if probes.contains(&p) => {
+                    return Verdict::violated(
+                        format!("appdata:pair={pair},dir={},delivered_not_readable", dir.name()),
+                        "both sides Connected on equal keys; the application record reached the peer but was never yielded (a later probe on the same path was)",
+                        json!({"sent": hex(&payload), "probe_yielded": String::from_utf8_lossy(&p).to_string()}),
+                    );
+                }
                 Some(p) if expect_first.contains(&p) && !got.contains(&p) => got.push(p),
                 Some(p) => {
                     return Verdict::violated(
@@ -2720,15 +2751,27 @@ async fn markers(rig: &mut Rig, pair: &str, raced: &[Vec<Vec<u8>>; 2]) -> Verdic
                     );
                 }
                 None => {
-                    let delivered = rig.shared.lock().delivered_app[dir as usize] > before;
-                    if delivered && t.elapsed() >= Duration::from_secs(3) {
+                    if probes.len() < 4 {
+                        let pr = format!("C11-PROBE-{}-{}-{:016x}", dir.name(), probes.len(), fnv64(pair.as_bytes()) ^ 0xa5a5).into_bytes();
+                        if let Err(e) = tx_ep.send_app(&pr).await {
+                            return Verdict::Inconclusive(format!("probe send {} failed: {e}", dir.name()));
+                        }
+                        probes.push(pr);
+                        continue;
+                    }
+                    let forwarded = rig.shared.lock().delivered_app[dir as usize].saturating_sub(before);
+                    let lag = canary_max.load(std::sync::atomic::Ordering::Relaxed);
+                    if forwarded as usize >= 1 + probes.len() && (lag as u128) <= LAG_LIMIT_MS {
                         return Verdict::violated(
                             format!("appdata:pair={pair},dir={},delivered_not_readable", dir.name()),
-                            "both sides Connected on equal keys; the application record reached the peer but was never yielded (4 s)",
-                            json!({"sent": hex(&payload)}),
+                            "both sides Connected on equal keys; the marker and four later probes reached the peer, none was ever yielded, the runtime was never starved",
+                            json!({"sent": hex(&payload), "datagrams_forwarded": forwarded, "probes": probes.len(), "canary_max_lag_ms": lag}),
                         );
                     }
-                    return Verdict::Inconclusive(format!("marker {} not seen on the wire", dir.name()));
+                    return Verdict::Inconclusive(format!(
+                        "marker {} never came out (forwarded by the wire: {forwarded}, canary lag {lag} ms)",
+                        dir.name()
+                    ));
                 }
             }
         }
